@@ -33,3 +33,17 @@ CLAIMS["C10"] = dict(
          "consistent memory; exhaustive only within the model's bounds (3-4 actors, <= 3 operations each).",
     design_ref="DESIGN.md §6 C10",
 )
+
+CLAIMS["C12"] = dict(
+    text="RwLock.tla (literal model of rwlock.rs: global lock with the SyncBlocker hand-shake, reader count under the internal "
+         "mutex, poison flag, the Poisoned-guard paths of all four entry points, a panicking writer, a cancellable waiter) is "
+         "checked exhaustively by TLC for 3 actors in clean, freshly poisoned and already poisoned state: writer exclusion, no "
+         "counter underflow, never-empty pop, lock free once all guards are dropped, no stranded locker. The two defects of the "
+         "pinned tree (F1, F2) are switchable in the spec: TLC shows their counter-examples with the switch off and verifies the "
+         "repaired protocol with it on. TLC behaviours are replayed into the real RwLock (coroutine + thread actors, real "
+         "cancel, guards recovered from PoisonError); seeded and preemption-bounded schedules are explored; an occupancy / "
+         "try_write-after-all-dropped / panic / hang oracle judges every execution.",
+    note="Assumes the Mutex contract for the internal rlock (C05) and AbsBlocker (C02); crossbeam SegQueue trusted; SC memory; "
+         "exhaustive only within the model's bounds (3 actors, <= 2 operations each, one cancel).",
+    design_ref="DESIGN.md §6 C12",
+)
